@@ -288,6 +288,21 @@ static vector<pair<string, function<void()>>> StressCases() {
     m += "\n";
     RunManifest(m);
   }});
+  v.push_back({"dependency chain of 100000 statements: the dirty scan of the last target", []() {
+    // nothing bounds the depth of the scan but the size of the input: one recursion level per statement of the chain
+    string m = "rule r\n  command = c\n";
+    for (int i = 1; i <= 100000; ++i) m += "build n" + to_string(i) + ": r n" + to_string(i - 1) + "\n";
+    State state;
+    MemReader r;
+    r.files["build.ninja"] = m;
+    ManifestParser p(&state, &r);
+    string err;
+    if (!p.Load("build.ninja", &err)) return;
+    MemDisk disk;
+    disk.files["n0"] = "";
+    DependencyScan scan(&state, nullptr, nullptr, &disk, nullptr, nullptr);
+    scan.RecomputeDirty(state.LookupNode("n100000"), nullptr, &err);
+  }});
   return v;
 }
 
